@@ -2,7 +2,7 @@
    Model: PL.Assess.Pipeline (composition of abstract stages with explicit contracts; every contract is checked on
    the implementation's stage outputs by harness/props/c10.py on every run).  Only statements, `exact`, Print Assumptions. *)
 From Coq Require Import Reals List Lra Lia Bool.
-From PL Require Import Assess.Pipeline Assess.PipelineEx.
+From PL Require Import Assess.Pipeline Assess.PipelineEx Assess.Layout.
 Import ListNotations.
 Open Scope R_scope.
 
@@ -25,6 +25,23 @@ Theorem gamma_normal_keeps_scaling_monotone alpha c M : 1 <= c -> 0 < M -> 0 < M
 Proof. exact (Pipeline.gamma_normal_ok_neg alpha c M). Qed.
 Theorem gamma_const_keeps_scaling_monotone g : 0 < g -> safety_ok (gamma_const g).
 Proof. exact (Pipeline.gamma_const_ok g). Qed.
+
+(* ---- row layout of per-point data in a batch (no contracts): the hysteresis table is ordered (hysteresis, point), row
+   h * n + i belongs to point i.  Tiling the per-point knees Z once per hysteresis gives every row of point i the knee of
+   point i, whatever the other points are; repeating each knee k times does not; with one common knee (uniform G, mild
+   notches) the two broadcasts cannot be told apart *)
+Theorem knee_rows_tiled_pointwise (Z : list R) (k h i : nat) :
+  (h < k)%nat -> (i < length Z)%nat -> nth (h * length Z + i) (tile k Z) 0 = nth i Z 0.
+Proof. exact (Layout.nth_tile 0 k Z h i). Qed.
+
+Theorem knee_rows_repeated_refuted :
+  exists (z : list nat) (k h i : nat),
+    (h < k)%nat /\ (i < length z)%nat /\ nth (h * length z + i) (rep_each k z) 0%nat <> nth i z 0%nat.
+Proof. exact Layout.rep_each_wrong. Qed.
+
+Theorem uniform_knee_hides_layout (c : R) (k : nat) (Z : list R) (r : nat) :
+  Forall (eq c) Z -> nth r (rep_each k Z) c = nth r (tile k Z) c.
+Proof. exact (Layout.uniform_hides_layout c k Z r). Qed.
 
 Section Stages.
   Variable LC : Type.
@@ -138,6 +155,9 @@ Print Assumptions maxabs_scales.
 Print Assumptions maxabs_refinement_invariant.
 Print Assumptions gamma_normal_keeps_scaling_monotone.
 Print Assumptions gamma_const_keeps_scaling_monotone.
+Print Assumptions knee_rows_tiled_pointwise.
+Print Assumptions knee_rows_repeated_refuted.
+Print Assumptions uniform_knee_hides_layout.
 Print Assumptions pointwise_if_shared_pointwise.
 Print Assumptions lifetime_antitone_in_scale.
 Print Assumptions lifetime_isotone_in_knee.
